@@ -28,6 +28,9 @@ mod control;
 mod macros;
 mod panic;
 
+#[cfg(compio_verif)]
+pub mod verif;
+
 mod key;
 pub use key::Key;
 
@@ -521,6 +524,12 @@ impl Entry {
     }
 
     pub fn notify(self) {
+        #[cfg(compio_verif)]
+        crate::verif::emit(
+            crate::verif::CQE_FINAL,
+            self.key.as_raw() as u64,
+            crate::verif::res_code(&self.result),
+        );
         #[cfg(io_uring)]
         self.key.borrow().extra_mut().set_flags(self.flags());
         self.key.set_result(self.result);
